@@ -6,13 +6,16 @@ ops:  registry_classes  None -> class table of the zoo (constants read from the 
 Objects are named by the order in which they were first handed out (never by address),
 liveness is observed through weakref.ref, registries through cls._instanceNames /
 cls._instanceCanon and cross-checked against the public show_singletons()."""
-import gc, weakref
+import gc, weakref, collections
 from valfmt import Err
 
 ZOO = []            # classes in class-table order
 ORIG_ID = {}
 KIND = {}
 FAIL = {}
+
+
+CONTAINERS = (tuple, list, collections.deque)      # indexed by (number of the construction in the history) % 3
 
 
 class UserInitError(Exception):
@@ -217,6 +220,10 @@ class Machine:
         # (the two must be indistinguishable); alternates deterministically with the position in the history
         self.ncalls = getattr(self, "ncalls", 0) + 1
         explicit = self.ncalls % 2 == 0
+        # container style: the unordered collection arguments (members of a macrostate, reactants / products of a
+        # reaction) are handed over as a tuple, a list or another re-iterable sequence (deque) in turn; the three
+        # must be indistinguishable (in particular a tuple is not thereby already "the canonical tuple")
+        box = CONTAINERS[self.ncalls % 3]
         if tag == "dom":
             _, dst, c, name, length, prefix, dtype = op
             kw = {k: v for k, v in (("name", name), ("length", length), ("prefix", prefix), ("dtype", dtype))
@@ -245,7 +252,7 @@ class Machine:
                 return lambda: ZOO[c](**kw)
             if any(S[e] is None for e in members):
                 return None
-            ms = [S[e] for e in members]
+            ms = box(S[e] for e in members)
             return lambda: ZOO[c](ms, **kw)
         if tag == "rxn":
             _, dst, c, rp, rtype, name = op
@@ -255,7 +262,7 @@ class Machine:
             r, p = rp
             if any(S[e] is None for e in r + p):
                 return None
-            rs, ps = [S[e] for e in r], [S[e] for e in p]
+            rs, ps = box(S[e] for e in r), box(S[e] for e in p)
             return lambda: ZOO[c](rs, ps, rtype, **kw)
         raise ValueError(tag)
 
